@@ -37,13 +37,19 @@ def run(ctx):
         fails += r["failures"]
         for k, v in r["named"].items():
             named[k] = named.get(k, 0) + v
+    # 6. the cloud stage's parking merge (same driver as C11; failures carry the signature CloudStage:*)
+    import c11
+    cf, cn = c11.execute(ctx, ("C07",))
+    fails += cf
+    named["cloud-stage-second-batch-for-pending-source"] = cn.get("second-batch-for-pending-source", 0)
     if named.get("gauge-tie", 0) == 0:
         raise vlib.MachineryError("vacuity: no family with a gauge timestamp tie")
     ctx.cov["named_situations"] = named
     ctx.cov["exhaustive"] = True
     ctx.cov["rule"] = ("families of <= MaxMaps maps from the pools of MCMerge.tla (all four types, value/timestamp domains with ties, "
                        "multi-series maps); for each family all ordered binary trees (n!*Catalan) through MetricMap.Merge and all "
-                       "permutations through MergeMaps, MetricConsolidator (1..3 slots) and MetricAggregator.ReceiveMap; an "
+                       "permutations through MergeMaps, MetricConsolidator (1..3 slots), MetricAggregator.ReceiveMap and the tag stage; the cloud "
+                       "stage's parking merge is driven by the C11 schedules; an "
                        "evaluation = one executed tree/permutation compared with the canonical aggregate")
     seen = set()
     for f in fails:
